@@ -1,10 +1,56 @@
 (* C01 - every request completes exactly once, whatever happens in between.
-   Statements only; proofs are in Core/Lifecycle*_proofs.v *)
+   Statements only; proofs are in Core/Lifecycle*_proofs.v.
+
+   The model (Core/Lifecycle.v) is the code as fixed by the commits ce0c9d5, e732c3e, 3a27dcb,
+   eb0f53d ([cf_fix cf = all_fixed]); the behaviour of the pinned tree is refuted by the
+   witnesses of Core/Lifecycle_refuted.v (last section of this file). *)
 From Coq Require Import List ZArith.
-From CAres.Core Require Import LifecycleMonitor LifecycleMonitor_proofs.
+Import ListNotations.
+From CAres.Base Require Import Outcome.
+From CAres.Core Require Import LifecycleMonitor LifecycleMonitor_proofs Lifecycle Lifecycle_proofs Lifecycle_refuted.
 
 (* The executable oracle run on the implementation's trace decides exactly the declarative
    property (at most once, none after destroy, complete at destroy/end, complete at cancel). *)
 Theorem C01_monitor_decides_trace_ok : forall tr, callback_monitor tr = VOk <-> trace_ok tr.
 Proof. exact monitor_ok_iff. Qed.
 Print Assumptions C01_monitor_decides_trace_ok.
+
+(* FULL STATEMENT: forall cf fuel h final, cf_fix cf = all_fixed -> forall k, run cf fuel h final <> UB k
+   (no history of API calls -- including calls made from callbacks --, server behaviours, timeouts,
+   socket failures and decisions of the library makes the lifecycle code touch or release a
+   released query, connection, wrapper or search/addr state).
+   PROVED for histories whose requests are send / query / search / gethostbyaddr / getnameinfo
+   (+ legacy variants), cancel from anywhere, destroy.  MISSING: ares_getaddrinfo /
+   ares_gethostbyname (struct host_query shared by the A and AAAA queries); they are covered by
+   the correspondence run and the sanitizers only. *)
+Theorem C01_no_ub_partial :
+  forall cf fuel h final, cf_fix cf = all_fixed -> Forall (fun it => nohost_input (fst it)) h ->
+  forall k, run cf fuel h final <> UB k.
+Proof. exact run_no_ub. Qed.
+Print Assumptions C01_no_ub_partial.
+
+(* the hypotheses are inhabited by non-trivial histories: the witnesses below satisfy them *)
+Example C01_no_ub_example :
+  Forall (fun it => nohost_input (fst it)) h_followup_fails /\ Forall (fun it => nohost_input (fst it)) h_sibling_cancels.
+Proof. split; repeat constructor. Qed.
+
+(* ---- the pinned tree does not satisfy the property: one witness per defect ---- *)
+Theorem C01_pinned_cancel_in_callback_refuted :
+  exists h final k, run (mkcfg without_unlink 3) 60 h final = UB k /\ accepted (run (mkcfg all_fixed 3) 60 h final) = true.
+Proof. exists h_cancel_in_cb, [], UseAfterFree. vm_compute. split; reflexivity. Qed.
+Print Assumptions C01_pinned_cancel_in_callback_refuted.
+
+Theorem C01_pinned_search_eformerr_refuted :
+  exists h final k, run (mkcfg without_search 3) 60 h final = UB k /\ accepted (run (mkcfg all_fixed 3) 60 h final) = true.
+Proof. exists h_search_eformerr, [], UseAfterFree. vm_compute. split; reflexivity. Qed.
+Print Assumptions C01_pinned_search_eformerr_refuted.
+
+Theorem C01_pinned_sibling_cancels_refuted :
+  exists h final k, run (mkcfg without_revalidate 1) 60 h final = UB k /\ accepted (run (mkcfg all_fixed 1) 60 h final) = true.
+Proof. exists h_sibling_cancels, [], UseAfterFree. vm_compute. split; reflexivity. Qed.
+Print Assumptions C01_pinned_sibling_cancels_refuted.
+
+Theorem C01_pinned_conn_under_read_refuted :
+  exists h final k, run (mkcfg without_connread 3) 60 h final = UB k /\ accepted (run (mkcfg all_fixed 3) 60 h final) = true.
+Proof. exists h_followup_fails, f_followup_fails, UseAfterFree. vm_compute. split; reflexivity. Qed.
+Print Assumptions C01_pinned_conn_under_read_refuted.
